@@ -40,6 +40,24 @@ CLAIMS.update({
     ref="DESIGN.md §5 C18"),
 })
 
+CLAIMS.update({
+ "C07": dict(
+    text="Coq theorems, each for all inputs: the scheduler queue hands out equal-key entries in insertion order (c07_queue_stable), a request is inserted behind everything queued and a periodic occurrence is re-inserted when its predecessor is pulled (c07_insert_last, c07_periodic_reinserted_at_pull), the actions of one (time, origin) group run in one task that does not start its next op while a delivery is outstanding (c07_task_sequential), mailboxes are FIFO and bounded (c07_mailbox_fifo); end-to-end instance for every choice list up to length 2 with a capacity-1 mailbox (c07_nonvacuous). Tie: bursts of same-deadline events to small mailboxes, exact log comparison on 1..16 threads + order oracle on the implementation.",
+    note=SIMNOTE + "Partial: the composition of the four facts into one trace-level order theorem is not mechanised; it is checked by correspondence and by the direct oracle.",
+    technique="Coq proof (component lemmas + PQ refinement) + differential bench correspondence + order oracle",
+    ref="DESIGN.md §5 C07"),
+ "C09": dict(
+    text="Coq theorems for all inputs: every action the critical section of a step turns into a task had a non-cancelled key when pulled (c09_cancelled_before_step_never_spawned), a cancelled head is discarded and never re-inserted (c09_cancelled_head_discarded, c09_peek_never_inserts), a keyed event dequeued after its key was cancelled runs nothing (c09_cancelled_before_dequeue_not_run), cancelling changes one flag only (c09_cancel_only_its_key). Tie: keyed one-shot/periodic events with cancellation before the step, by an earlier same-time event of the same model, after firing, from the driver; exact log comparison + oracles (driver events, handler-side cancel).",
+    note=SIMNOTE + "Partial: per-mechanism theorems; the trace-level 'runs iff not cancelled before ...' characterisation is checked by correspondence and oracles.",
+    technique="Coq proof (critical-section lemma by induction on the pull loop) + differential bench correspondence + cancellation oracles",
+    ref="DESIGN.md §5 C09"),
+ "C10": dict(
+    text="Coq theorems for all inputs: the next occurrence is keyed by the pulled key's time plus the period with the same origin/action (c10_reinsert, c10_progression_arith), after every returning command nothing is pending at or before now and queued periods are positive (c10_nothing_due_left), only live heads fire (c10_only_live_heads_fire); computed instance of partition independence (c10_partition_independent). Tie: 1-4 periodic series with periods down to 1 ns and cancel points, each bench under 4 step/step_until partitions on the implementation: all partitions must fire the same occurrences, equal to the model's and to the arithmetic-progression oracle.",
+    note=SIMNOTE + "Partial: the trace-level progression theorem is not mechanised end-to-end.",
+    technique="Coq proof (component lemmas + invariant) + cross-partition differential execution + progression oracle",
+    ref="DESIGN.md §5 C10"),
+})
+
 PENDING_REASON = "check not built yet in this snapshot (planned per DESIGN.md section 5/8); not claimed until its check exists"
 
 def main():
